@@ -203,9 +203,9 @@ theorem wfOrder_false (ps : List Param) : ∀ sd, wfOrder false sd ps = true →
     · simp at h
     · have := ih sd h
       simp only [hasStar, nPos] at this
-      simp [hasStar, nPos, hk, List.filter_cons, this]
+      simp [hasStar, nPos, hk, this]
     · have : ps = [] := by simpa using h.2
-      subst this; simp [hasStar, nPos, hk, List.filter_cons]
+      subst this; simp [hasStar, nPos, hk]
 
 theorem namesNodup_cons {n : Name} {ns : List Name} (h : namesNodup (n :: ns) = true) :
     n ∉ ns ∧ namesNodup ns = true := by
@@ -439,7 +439,7 @@ theorem loop_main (all : List Param) (kws : List (Name × Arg))
         · simp [fill, hk]
         · intro hs
           have := hlen (by simpa [hasStar, hk] using hs)
-          simp [nPos, List.filter_cons, hk] at this
+          simp [nPos, hk] at this
           simpa [nPos] using this
       · -- star: takes all positional arguments that are left, pushes the first keyword back
         have hwf' : wfOrder false sd ps = true := by
@@ -465,7 +465,7 @@ theorem loop_main (all : List Param) (kws : List (Name × Arg))
           unfold wfOrder at hwf; simp only [hk, Bool.and_eq_true] at hwf; simpa using hwf.2
         subst hps
         have := hlen (by simp [hasStar, hk])
-        simp [nPos, List.filter_cons, hk] at this
+        simp [nPos, hk] at this
 
 /-! ### shape of the result, for every source configuration and every argument list -/
 
